@@ -17,7 +17,8 @@ from vf.pyvc import extract
 
 MOD = "debian.deb822"
 
-NAMES = ["Package", "X-Foo", "a1", "X-Bug#", "Depends", "Description", "x.y_z", "Build-Depends-Indep"]
+NAMES = ["Package", "X-Foo", "a1", "X-Bug#", "Depends", "Description", "x.y_z", "Build-Depends-Indep",
+         "X-Cfg[", "X-Cfg{", "X@", "X`"]      # distinct names that differ only in characters next to the letters in ASCII
 from vf import tricky
 FIRST = ["v", "1.0 (x)", ": v", "#v", "v: w", "", "a  b", "é ü", "-", "v #c"] + tricky.VALUE_BITS
 CONT = [" c", "\tc", " .", " a: b", " Usage: ", " Contact: ", " x:", " : ", " a:\t", " #x", "  two  words ", " é", " :", "\t# t", " -----BEGIN x-----", " -----BEGIN PGP PUBLIC KEY BLOCK-----",
